@@ -49,7 +49,7 @@ func c02Case(g *Gen, c addchain.Chain, tgt *big.Int, tgts []*big.Int) {
 }
 
 func genC02(g *Gen) {
-	alpha := []int64{-1, 0, 1, 2, 3, 4, 5, 6, 8}
+	alpha := []int64{-3, -2, -1, 0, 1, 2, 3, 4, 5, 6, 8}
 	maxLen := g.pick(5, 6)
 	// all sequences over the alphabet up to maxLen
 	var rec func(c []int64)
@@ -126,7 +126,11 @@ func genC02(g *Gen) {
 				c = append(c, new(big.Int).Lsh(c[len(c)-1], uint(1+g.R.Intn(70))))
 			}
 		}
-		switch g.R.Intn(6) {
+		switch g.R.Intn(7) {
+		case 6:
+			// the negative of a sum of two earlier elements (sign-blind comparisons accept it)
+			k := 1 + g.R.Intn(len(c)-1)
+			c[k] = new(big.Int).Neg(c[k])
 		case 0:
 			c[g.R.Intn(len(c))] = big.NewInt(int64(g.R.Intn(5)) - 1)
 		case 1:
